@@ -3,6 +3,7 @@ package main
 // C04 — semver: grammar, accessors, Compare preorder, Sort.
 
 import (
+	"math/big"
 	"regexp"
 	"sort"
 	"strings"
@@ -27,7 +28,7 @@ func init() {
 	}
 	impls["semver.canonicalversion"] = func(a []string) string { return hx(module.CanonicalVersion(unhx(a[0]))) }
 	register(&Prop{ID: "C04", Gen: genC04, Oracle: oracleC04,
-		Rule: "grammar-directed versions (numeric fields 1-40 digits, 0-4 prerelease identifiers of 4 kinds, build parts), near-misses by one mutation, pairs with long common prefixes, random bytes; non-trivial = valid or one mutation from valid; distinct by op line"})
+		Rule: "grammar-directed versions (numeric fields 1-40 digits, 0-4 prerelease identifiers of 4 kinds, build parts), near-misses by one mutation, pairs with long common prefixes, divergent pairs (common prefix cut at every kind of junction inside the prerelease, tails of different length/class), random bytes; non-trivial = valid or one mutation from valid; distinct by op line"})
 }
 
 const digits = "0123456789"
@@ -164,6 +165,168 @@ func genRelated(r *Rand, v string) string {
 	}
 }
 
+// c04Tail returns the part of a version after the point where two related versions start to differ.
+// The family covers every class the precedence rules distinguish: numbers of different lengths (where
+// numeric and bytewise order disagree: 9 / 10), equal lengths, numbers longer than 64 bits, leading
+// zeros, alphanumerics starting with a digit, letters, hyphens, nothing at all; optionally followed by
+// further identifiers or build metadata.
+func c04Tail(r *Rand) string {
+	var t string
+	switch r.Intn(9) {
+	case 0:
+		t = ""
+	case 1, 2:
+		t = r.Bytes(1+r.Intn(3), digits)
+	case 3:
+		t = r.Pick([]string{"9", "10", "2", "1", "0", "19", "100", "99"})
+	case 4:
+		t = r.Bytes(18+r.Intn(6), digits) // around and above 64 bits
+	case 5:
+		t = r.Bytes(1+r.Intn(2), digits) + r.Bytes(1, identAlpha) + r.Bytes(r.Intn(2), digits)
+	case 6:
+		t = r.Bytes(1+r.Intn(2), identAlpha) + r.Bytes(r.Intn(3), digits)
+	case 7:
+		t = "-" + r.Bytes(r.Intn(3), digits)
+	default:
+		t = genIdent(r)
+	}
+	switch r.Intn(8) {
+	case 0:
+		t += "." + genIdent(r)
+	case 1:
+		t += "+" + r.Bytes(1+r.Intn(3), digits+identAlpha)
+	}
+	return t
+}
+
+// c04Divergent returns k versions that agree byte for byte up to a junction and differ after it.
+// Input class added for seeded change r3-C04-a: independent versions, one-byte mutations and
+// appended identifiers (genRelated) never give two versions whose common prefix ends INSIDE a
+// prerelease identifier (e.g. just after a hyphen that is an ordinary identifier character) and
+// whose remainders fall into different length/identifier classes; a comparison that splits or
+// classifies identifiers from the point of first difference instead of from the identifier start
+// is only visible on such pairs. The junction is a cut anywhere in a valid version (mostly in its
+// prerelease) followed by one byte of each class of the prerelease grammar ('.', '-', letter,
+// digit, or nothing).
+func c04Divergent(r *Rand, k int) []string {
+	base := "v" + genNum(r) + "." + genNum(r) + "." + genNum(r)
+	if r.Chance(10) {
+		base = "v1.0.0"
+	}
+	lo := len(base)
+	n := r.Intn(4)
+	ids := make([]string, n)
+	for i := range ids {
+		ids[i] = genIdent(r)
+	}
+	base += "-" + strings.Join(ids, ".")
+	if n == 0 {
+		base = base[:len(base)-1]
+		if r.Bool() {
+			base += "-"
+		}
+	}
+	cut := len(base)
+	switch r.Intn(10) {
+	case 0: // anywhere, including inside major.minor.patch
+		cut = 1 + r.Intn(len(base))
+	case 1, 2, 3, 4: // anywhere in the prerelease
+		cut = lo + r.Intn(len(base)-lo+1)
+	}
+	prefix := base[:cut] + r.Pick([]string{"", "", ".", "-", "-", "a", "x-", "1", "0"})
+	out := make([]string, k)
+	for i := range out {
+		out[i] = prefix + c04Tail(r)
+	}
+	return out
+}
+
+// c04AllDigits reports whether s is a non-empty string of ASCII digits.
+func c04AllDigits(s string) bool {
+	for i := 0; i < len(s); i++ {
+		if s[i] < '0' || '9' < s[i] {
+			return false
+		}
+	}
+	return s != ""
+}
+
+func c04CmpNum(a, b string) int {
+	x, ok1 := new(big.Int).SetString(a, 10)
+	y, ok2 := new(big.Int).SetString(b, 10)
+	if !ok1 || !ok2 {
+		panic("c04CmpNum: not a number: " + a + " " + b)
+	}
+	return x.Cmp(y)
+}
+
+// c04RefCompare is SemVer 2.0.0 section 11 precedence written down directly (independent of the
+// package: validity from the grammar regexp, fields by strings.Cut/Split, numbers as big.Int), extended
+// as the package documents: missing minor/patch are 0, build metadata is ignored, all invalid strings
+// are equal and below all valid ones.
+func c04RefCompare(v, w string) int {
+	vv, wv := semverRE.MatchString(v), semverRE.MatchString(w)
+	switch {
+	case !vv && !wv:
+		return 0
+	case !vv:
+		return -1
+	case !wv:
+		return +1
+	}
+	split := func(s string) (core []string, pre []string, hasPre bool) {
+		s = s[1:]
+		s, _, _ = strings.Cut(s, "+")
+		s, p, hasPre := strings.Cut(s, "-") // major.minor.patch contains no hyphen: the first one starts the prerelease
+		core = strings.Split(s, ".")
+		for len(core) < 3 {
+			core = append(core, "0")
+		}
+		if hasPre {
+			pre = strings.Split(p, ".")
+		}
+		return core, pre, hasPre
+	}
+	vc, vp, vh := split(v)
+	wc, wp, wh := split(w)
+	for i := 0; i < 3; i++ {
+		if c := c04CmpNum(vc[i], wc[i]); c != 0 {
+			return c
+		}
+	}
+	switch {
+	case !vh && !wh:
+		return 0
+	case !vh:
+		return +1 // a version without prerelease has higher precedence
+	case !wh:
+		return -1
+	}
+	for i := 0; i < len(vp) && i < len(wp); i++ {
+		a, b := vp[i], wp[i]
+		if a == b {
+			continue
+		}
+		an, bn := c04AllDigits(a), c04AllDigits(b)
+		switch {
+		case an && bn:
+			return c04CmpNum(a, b)
+		case an:
+			return -1 // numeric identifiers have lower precedence than alphanumeric ones
+		case bn:
+			return +1
+		}
+		return strings.Compare(a, b) // ASCII order
+	}
+	switch {
+	case len(vp) < len(wp):
+		return -1
+	case len(vp) > len(wp):
+		return +1
+	}
+	return 0
+}
+
 func genC04(g *Gen, n int) {
 	for i := 0; i < n; i++ {
 		v, nt := genVersion(g.Rand)
@@ -184,7 +347,10 @@ func genC04(g *Gen, n int) {
 			g.Emit("semver.canonicalversion "+hx(v), nt, "single")
 		case 7, 8, 9:
 			var w string
-			if g.Chance(60) {
+			if g.Chance(25) {
+				d := c04Divergent(g.Rand, 2)
+				v, w, nt = d[0], d[1], true
+			} else if g.Chance(60) {
 				w = genRelated(g.Rand, v)
 			} else {
 				w, _ = genVersion(g.Rand)
@@ -197,6 +363,9 @@ func genC04(g *Gen, n int) {
 		default:
 			k := g.Intn(8)
 			l := []string{v}
+			if g.Chance(20) {
+				l = append(l, c04Divergent(g.Rand, 2+g.Intn(4))...)
+			}
 			for j := 0; j < k; j++ {
 				if g.Chance(50) {
 					l = append(l, genRelated(g.Rand, l[g.Intn(len(l))]))
@@ -230,6 +399,12 @@ func oracleC04(g *Gen, n int) {
 		c := genRelated(g.Rand, b)
 		if g.Chance(30) {
 			c, _ = genVersion(g.Rand)
+		}
+		if g.Chance(30) {
+			// divergent triple: common prefix up to a junction, tails of different classes (see c04Divergent)
+			d := c04Divergent(g.Rand, 3)
+			a, b, c = d[0], d[1], d[2]
+			g.Case("divergent")
 		}
 		g.Case("triple")
 		// grammar
@@ -270,6 +445,13 @@ func oracleC04(g *Gen, n int) {
 		}
 		if semver.IsValid(a) != semver.IsValid(b) && sign(ab) != map[bool]int{true: 1, false: -1}[semver.IsValid(a)] {
 			g.Fail("invalid version not below valid one", a+" "+b, "semver.compare "+hx(a)+" "+hx(b))
+		}
+		// "orders versions by SemVer 2.0.0 precedence with numbers of any length compared numerically":
+		// the preorder laws above hold for ANY consistent order; this clause pins the order itself.
+		for _, p := range [][2]string{{a, b}, {b, c}, {a, c}} {
+			if got, want := semver.Compare(p[0], p[1]), c04RefCompare(p[0], p[1]); got != want {
+				g.Fail("Compare is not SemVer 2.0.0 precedence", p[0]+" "+p[1]+" got "+itoa(got)+" want "+itoa(want), "semver.compare "+hx(p[0])+" "+hx(p[1]))
+			}
 		}
 		// sort: permutation, ordered by Compare then string
 		l := []string{a, b, c, a}
